@@ -2,10 +2,22 @@
 use crate::evidence::{Ctx, Report};
 
 pub mod c01;
+pub mod c05;
+pub mod c06;
+pub mod c15;
+pub mod c13;
+pub mod c12;
+pub mod c11;
 
 pub fn run(ctx: &Ctx) -> Option<Report> {
     match ctx.property.as_str() {
         "C01" => Some(c01::run(ctx)),
+        "C05" => Some(c05::run(ctx)),
+        "C06" => Some(c06::run(ctx)),
+        "C11" => Some(c11::run(ctx)),
+        "C12" => Some(c12::run(ctx)),
+        "C13" => Some(c13::run(ctx)),
+        "C15" => Some(c15::run(ctx)),
         _ => None,
     }
 }
